@@ -1,6 +1,7 @@
 "C05 — stylesheet abbreviations resolve numbers, units, colors and !important"
 import re, itertools
 from fractions import Fraction
+import os
 from hypothesis import strategies as st
 from vlib import core, css_model as C
 from vlib.core import guard
@@ -207,3 +208,9 @@ def run(ctx):
     ctx.run_parallel('shard_pairs')
     ctx.exhaustive('all ordered pairs of %d number shapes × signs × 2 keys (unit-taking, unit-less)' % len(SHAPES))
     ctx.run_parallel('shard_random', extra=(ctx.pick(250, 6000),))
+    if ctx.thorough or os.environ.get('VERIF_FUZZ'):
+        ctx.run_atheris('css', ctx.pick(300, 4000), guided=True)
+
+
+# coverage-guided layer (thorough tier): the Hypothesis strategy under libFuzzer (vlib/fuzz.py, guided mode)
+GUIDED = {'css': strategy}
